@@ -58,7 +58,8 @@ ASSUMPTIONS = [
 ]
 RULE = ("nested list/tuple/dict values (depth <= 3) over real temp files and directories with colliding names from up "
         "to 4 directories (same object repeated, equal file-sets, different classes on one path, counter-like names), "
-        "1-3 output fields, optional patched mount table; run through copyfile_workflow directly and through real "
+        "1-3 output fields, dict keys strs (direct mode: also file-sets), optional patched mount table, optional "
+        "pre-existing entries in the target directory; run through copyfile_workflow directly and through real "
         "workflows; non-trivial = at least two file leaves sharing a name from different sources, or a file-set "
         "occurring in two places")
 
@@ -227,7 +228,7 @@ def gen_leaf_pool(rng, sb, n):
 ATOMS = [0, 1, 7, "", "s", "f.txt", None, True, False, 2.5, b"ab", b""]
 
 
-def gen_value(rng, pool, depth, want_file=True):
+def gen_value(rng, pool, depth, want_file=True, file_keys=False):
     r = rng.random()
     if depth == 0 or r < 0.35:
         if pool and (want_file or rng.random() < 0.6):
@@ -235,14 +236,19 @@ def gen_value(rng, pool, depth, want_file=True):
         return rng.choice(ATOMS)
     n = rng.choice([0, 1, 2, 2, 3, 4])
     kind = rng.choice(["list", "list", "tuple", "dict"])
-    items = [gen_value(rng, pool, depth - 1, want_file=rng.random() < 0.7) for _ in range(n)]
+    items = [gen_value(rng, pool, depth - 1, want_file=rng.random() < 0.7, file_keys=file_keys) for _ in range(n)]
     if kind == "list":
         return items
     if kind == "tuple":
         return tuple(items)
     keys = []
     for i in range(n):
-        keys.append(rng.choice(["k%d" % i, "%d" % i, "f.txt%d" % i]))   # str keys only: pydra's hashing sorts dict keys
+        k = rng.choice(["k%d" % i, "%d" % i, "f.txt%d" % i])   # str keys: pydra's hashing sorts dict keys
+        if file_keys and pool and rng.random() < 0.2:          # file-sets as keys (they are traversed too): direct mode only
+            c = rng.choice(pool)
+            if c not in keys:
+                k = c
+        keys.append(k)
     return dict(zip(keys, items))
 
 
@@ -517,7 +523,7 @@ def one_case(ctx, rng, base, mode, spec=None):
         if spec is None:
             pool = gen_leaf_pool(rng, sb, rng.choice([2, 3, 4, 5, 6]))
             nf = rng.choice([1, 1, 2, 3])
-            values = [gen_value(rng, pool, rng.choice([0, 1, 2, 3])) for _ in range(nf)]
+            values = [gen_value(rng, pool, rng.choice([0, 1, 2, 3]), file_keys=(mode == "direct")) for _ in range(nf)]
             table = gen_table(rng, sb)
             pre = []
             if mode == "direct" and rng.random() < 0.3:
